@@ -34,106 +34,128 @@ Notation read_inner := (read_inner UK UB).
 Notation step := (step UK UB).
 Notation run := (run UK UB).
 
-(* ---- locality of calls: a call touches one bucket ---- *)
+(* ---- locality of calls: every call but CopyObject touches one bucket ---- *)
 Definition cbucket (c : call) : bytes :=
-  match c with CCreate b | CDeleteB b | CPut b _ _ _ _ | CDel b _ _ _ | CDels b _ | CVers b _ => b end.
+  match c with
+  | CCreate b | CDeleteB b | CPut b _ _ _ _ | CDel b _ _ _ | CDels b _ | CVers b _
+  | CMpCreate b _ _ _ _ | CMpPart b _ _ _ _ | CMpComplete b _ _ _ _ | CMpAbort b _ _ | CAppend b _ _
+  | CPutTags b _ _ | CDelTags b _ | CPutR b _ _ => b
+  | CCopy _ _ db _ => db
+  end.
+Definition is_copy (c : call) : bool := match c with CCopy _ _ _ _ => true | _ => false end.
 
 Definition bstep (c : call) (ob : option bstate) : option bstate := fst (apply_call (fun _ => ob) c) (cbucket c).
 Definition bres (c : call) (ob : option bstate) : option err := snd (apply_call (fun _ => ob) c).
 
-Lemma set_key_eq s b bs k ks :
-  set_key s b bs k ks = fupd s b (Some {| b_vers := b_vers bs; b_objs := fupd (b_objs bs) k ks |}).
-Proof. reflexivity. Qed.
+Lemma bstate_eta bs : {| b_vers := b_vers bs; b_objs := b_objs bs; b_ups := b_ups bs |} = bs.
+Proof. now destruct bs. Qed.
 
-Lemma apply_local s c :
+Local Opaque put_k del_k kstep dels_k bucket_empty.
+
+Ltac split_matches :=
+  repeat (match goal with |- context [match ?x with _ => _ end] => destruct x eqn:? end; cbn [fst snd]).
+
+Lemma apply_local s c : is_copy c = false ->
   apply_call s c = (fupd s (cbucket c) (bstep c (s (cbucket c))), bres c (s (cbucket c))).
 Proof.
-  unfold bstep, bres.
-  destruct c as [b|b|b k cid ct o|b k vid ifm|b ks|b v]; cbn [StorageOutbox.apply_call cbucket].
-  - destruct (s b) eqn:E; cbn; [now rewrite <- E, fupd_id | now rewrite fupd_same].
-  - destruct (s b) as [bs|] eqn:E; cbn; [|now rewrite <- E, fupd_id].
-    destruct (bucket_empty UK bs); cbn; [now rewrite fupd_same | now rewrite <- E, fupd_id].
-  - destruct (s b) as [bs|] eqn:E; cbn; [|now rewrite <- E, fupd_id].
-    destruct (put_k _ _ _ _ _) as [ks' [e|]]; cbn; [now rewrite <- E, fupd_id|].
-    unfold set_key. now rewrite fupd_same.
-  - destruct (s b) as [bs|] eqn:E; cbn; [|now rewrite <- E, fupd_id].
-    destruct (del_k _ _ _ _) as [ks' [e|]]; cbn; [now rewrite <- E, fupd_id|].
-    unfold set_key. now rewrite fupd_same.
-  - destruct (s b) as [bs|] eqn:E; cbn; [|now rewrite <- E, fupd_id]. now rewrite fupd_same.
-  - destruct (s b) as [bs|] eqn:E; cbn; [|now rewrite <- E, fupd_id]. now rewrite fupd_same.
+  intros NC. unfold bstep, bres.
+  destruct c; try discriminate NC; cbn [StorageOutbox.apply_call cbucket keyop]; unfold put_rec;
+    match goal with |- context [s ?b] => destruct (s b) as [bs|] eqn:E end; cbn [fst snd];
+    split_matches; unfold set_key; rewrite ?fupd_same; try reflexivity;
+    try (rewrite <- E, fupd_id; reflexivity).
 Qed.
 
-Lemma app_local s c : app s c = fupd s (cbucket c) (bstep c (s (cbucket c))).
-Proof. unfold StorageOutbox.app. now rewrite apply_local. Qed.
-Lemma res_local s c : snd (apply_call s c) = bres c (s (cbucket c)).
-Proof. now rewrite apply_local. Qed.
+Lemma app_local s c : is_copy c = false -> app s c = fupd s (cbucket c) (bstep c (s (cbucket c))).
+Proof. intros H. unfold StorageOutbox.app. now rewrite apply_local. Qed.
+Lemma res_local s c : is_copy c = false -> snd (apply_call s c) = bres c (s (cbucket c)).
+Proof. intros H. now rewrite apply_local. Qed.
 
-Lemma app_other_bucket s c b : b <> cbucket c -> app s c b = s b.
-Proof. intros H. rewrite app_local. now apply fupd_other. Qed.
+Lemma app_other_bucket s c b : is_copy c = false -> b <> cbucket c -> app s c b = s b.
+Proof. intros NC H. rewrite app_local by assumption. now apply fupd_other. Qed.
 
-Lemma comm_other_bucket s c1 c2 : cbucket c1 <> cbucket c2 ->
+Lemma comm_other_bucket s c1 c2 : is_copy c1 = false -> is_copy c2 = false -> cbucket c1 <> cbucket c2 ->
   app (app s c1) c2 = app (app s c2) c1.
 Proof.
-  intros H. rewrite !app_local.
+  intros N1 N2 H. rewrite !app_local by assumption.
   rewrite (fupd_other s (cbucket c1)) by congruence.
   rewrite (fupd_other s (cbucket c2)) by congruence.
   apply fupd_comm; congruence.
 Qed.
 
-Lemma res_other_bucket s c1 c2 : cbucket c1 <> cbucket c2 ->
+Lemma res_other_bucket s c1 c2 : is_copy c1 = false -> is_copy c2 = false -> cbucket c1 <> cbucket c2 ->
   snd (apply_call (app s c1) c2) = snd (apply_call s c2).
-Proof. intros H. rewrite !res_local, app_other_bucket by congruence. reflexivity. Qed.
+Proof. intros N1 N2 H. rewrite !res_local, app_other_bucket by (assumption || congruence). reflexivity. Qed.
 
 (* ---- locality of key calls inside a bucket ---- *)
 Definition keycall (c : call) : option (bytes * bytes) :=
-  match c with CPut b k _ _ _ | CDel b k _ _ => Some (b, k) | _ => None end.
-Definition kstep (c : call) (st : vstat) (ks : kstate) : kstate * option err :=
   match c with
-  | CPut _ _ cid ct o => put_k st ks (mk_rec cid ct o) (o_ifnone o) (o_ifmatch o)
-  | CDel _ _ vid ifm => del_k st ks vid ifm
-  | _ => (ks, None)
+  | CPut b k _ _ _ | CDel b k _ _ | CPutR b k _ => Some (b, k)
+  | _ => keyop c
   end.
-Definition knew (c : call) (st : vstat) (ks : kstate) : kstate :=
-  match kstep c st ks with (ks', None) => ks' | (_, Some _) => ks end.
+Definition kfull (c : call) (st : vstat) (ks : kstate) (ups : list (N * upload)) : kstate * list (N * upload) * option err :=
+  match c with
+  | CPut _ _ cid ct o => let '(ks', e) := put_k st ks (mk_rec cid ct o) (o_ifnone o) (o_ifmatch o) in (ks', ups, e)
+  | CDel _ _ vid ifm => let '(ks', e) := del_k st ks vid ifm in (ks', ups, e)
+  | CPutR _ _ r => let '(ks', e) := put_k st ks r false None in (ks', ups, e)
+  | _ => kstep c st ks ups
+  end.
+Definition knew (c : call) (st : vstat) (ks : kstate) (ups : list (N * upload)) : kstate * list (N * upload) :=
+  match kfull c st ks ups with (ks', ups', None) => (ks', ups') | (_, _, Some _) => (ks, ups) end.
+(* entries replay as calls that neither read nor write the pending uploads *)
+Definition plain (c : call) : Prop :=
+  exists f : vstat -> kstate -> kstate * option err,
+    forall st ks ups, kfull c st ks ups = (fst (f st ks), ups, snd (f st ks)).
 
 Lemma key_local s c b k : keycall c = Some (b, k) ->
   apply_call s c =
   match s b with
   | None => (s, Some NoSuchBucket)
-  | Some bs => (fupd s b (Some {| b_vers := b_vers bs; b_objs := fupd (b_objs bs) k (knew c (b_vers bs) (b_objs bs k)) |}),
-                snd (kstep c (b_vers bs) (b_objs bs k)))
+  | Some bs => (fupd s b (Some {| b_vers := b_vers bs;
+                                  b_objs := fupd (b_objs bs) k (fst (knew c (b_vers bs) (b_objs bs k) (b_ups bs)));
+                                  b_ups := snd (knew c (b_vers bs) (b_objs bs k) (b_ups bs)) |}),
+                snd (kfull c (b_vers bs) (b_objs bs k) (b_ups bs)))
   end.
 Proof.
-  intros H. destruct c; try discriminate; cbn in H; inversion H; subst; cbn [StorageOutbox.apply_call];
-    (destruct (s b) as [bs|] eqn:E; [|reflexivity]); unfold knew, kstep.
-  - destruct (put_k _ _ _ _ _) as [ks' [e|]]; cbn; [|reflexivity].
-    rewrite fupd_id. replace {| b_vers := b_vers bs; b_objs := b_objs bs |} with bs by now destruct bs.
-    now rewrite <- E, fupd_id.
-  - destruct (del_k _ _ _ _) as [ks' [e|]]; cbn; [|reflexivity].
-    rewrite fupd_id. replace {| b_vers := b_vers bs; b_objs := b_objs bs |} with bs by now destruct bs.
-    now rewrite <- E, fupd_id.
+  intros H. destruct c; try discriminate H; cbn in H; inversion H; subst;
+    cbn [StorageOutbox.apply_call keyop]; unfold put_rec;
+    (destruct (s b) as [bs|] eqn:E; [|reflexivity]); unfold knew, kfull;
+    split_matches; unfold set_key; cbn [fst snd]; try reflexivity;
+    try (rewrite fupd_id, bstate_eta, <- E, fupd_id; reflexivity); try congruence.
 Qed.
 
 Lemma keycall_bucket c b k : keycall c = Some (b, k) -> cbucket c = b.
 Proof. destruct c; cbn; intros H; inversion H; reflexivity. Qed.
+Lemma keycall_not_copy c b k : keycall c = Some (b, k) -> is_copy c = false.
+Proof. destruct c; cbn; intros H; try discriminate H; reflexivity. Qed.
 
+Lemma plain_knew c : plain c -> exists g : vstat -> kstate -> kstate,
+  forall st ks ups, knew c st ks ups = (g st ks, ups).
+Proof.
+  intros [f Hf]. exists (fun st ks => match snd (f st ks) with None => fst (f st ks) | Some _ => ks end).
+  intros st ks ups. unfold knew. rewrite Hf. destruct (snd (f st ks)); reflexivity.
+Qed.
+
+(* c1: a replayed entry (plain), c2: any call on another key of the same bucket *)
 Lemma comm_other_key s c1 c2 b k1 k2 :
-  keycall c1 = Some (b, k1) -> keycall c2 = Some (b, k2) -> k1 <> k2 ->
+  keycall c1 = Some (b, k1) -> plain c1 -> keycall c2 = Some (b, k2) -> k1 <> k2 ->
   app (app s c1) c2 = app (app s c2) c1 /\
   snd (apply_call (app s c1) c2) = snd (apply_call s c2).
 Proof.
-  intros H1 H2 Hk. unfold StorageOutbox.app.
+  intros H1 P1 H2 Hk. destruct (plain_knew c1 P1) as [g Hg]. unfold StorageOutbox.app.
   rewrite (key_local s c1 b k1 H1), (key_local s c2 b k2 H2).
   destruct (s b) as [bs|] eqn:E; cbn [fst snd].
-  - rewrite (key_local _ c2 b k2 H2), (key_local _ c1 b k1 H1). rewrite !fupd_same. cbn [b_vers b_objs fst snd].
-    rewrite !fupd_shadow.
+  - rewrite (key_local _ c2 b k2 H2), (key_local _ c1 b k1 H1). rewrite !fupd_same. cbn [b_vers b_objs b_ups fst snd].
+    rewrite !fupd_shadow, !Hg. cbn [fst snd].
     rewrite (fupd_other (b_objs bs) k1 _ k2) by congruence.
     rewrite (fupd_other (b_objs bs) k2 _ k1) by congruence.
     split; [|reflexivity]. f_equal. f_equal. f_equal. apply fupd_comm. exact Hk.
   - rewrite (key_local s c2 b k2 H2), (key_local s c1 b k1 H1), E. cbn. split; reflexivity.
 Qed.
 
-(* a key call keeps existence and versioning status of every bucket *)
+(* what a key-scoped operation can see of a bucket *)
+Definition kview (s : istate) (b k : bytes) : option (vstat * kstate * list (N * upload)) :=
+  match s b with None => None | Some bs => Some (b_vers bs, b_objs bs k, b_ups bs) end.
+
 Lemma key_keeps_bucket s c b k b' : keycall c = Some (b, k) ->
   option_map b_vers (app s c b') = option_map b_vers (s b').
 Proof.
@@ -142,12 +164,15 @@ Proof.
   destruct (bytes_eq_dec b' b) as [->|N]; [rewrite fupd_same, E; reflexivity | now rewrite fupd_other].
 Qed.
 
-Lemma key_keeps_other_key s c b k k' bs : keycall c = Some (b, k) -> k' <> k -> s b = Some bs ->
-  exists bs', app s c b = Some bs' /\ b_vers bs' = b_vers bs /\ b_objs bs' k' = b_objs bs k'.
+Lemma key_keeps_view s c b k k' : keycall c = Some (b, k) -> plain c -> k' <> k ->
+  kview (app s c) b k' = kview s b k'.
 Proof.
-  intros H Hk E. unfold StorageOutbox.app. rewrite (key_local s c b k H), E. cbn [fst].
-  rewrite fupd_same. eexists; split; [reflexivity|]. cbn. split; [reflexivity|]. now apply fupd_other.
+  intros H P Hk. destruct (plain_knew c P) as [g Hg]. unfold kview, StorageOutbox.app.
+  rewrite (key_local s c b k H). destruct (s b) as [bs|] eqn:E; cbn [fst]; [|now rewrite E].
+  rewrite fupd_same, Hg. cbn. now rewrite fupd_other.
 Qed.
+
+Local Transparent put_k del_k kstep dels_k bucket_empty.
 
 (* ---- what is replayed is what was accepted ---- *)
 Lemma fix6_length l : length (fix6 l) = 6.
@@ -195,7 +220,7 @@ Lemma put_replayed s b k cid ct o : o_ifnone o = false -> o_ifmatch o = None ->
   apply_call s (replay_call (ser_put b k cid ct o)) = apply_call s (CPut b k cid ct o).
 Proof.
   intros H1 H2. pose proof (mk_rec_ser b k cid ct o) as M.
-  destruct (replay_call (ser_put b k cid ct o)) as [| |b' k' cid' ct' o'| | |]; try contradiction.
+  destruct (replay_call (ser_put b k cid ct o)) as [| |b' k' cid' ct' o'| | | | | | | | | | | |]; try contradiction.
   destruct M as (-> & -> & -> & -> & M & F1 & F2).
   cbn [StorageOutbox.apply_call]. now rewrite M, F1, F2, H1, H2.
 Qed.
@@ -208,8 +233,7 @@ Lemma dels_replayed b ks : forall s,
 Proof.
   induction ks as [|k t IH]; intros s; cbn [map StorageOutbox.apps fold_left].
   - unfold StorageOutbox.app; cbn. destruct (s b) as [bs|] eqn:E; cbn; [|reflexivity].
-    replace {| b_vers := b_vers bs; b_objs := b_objs bs |} with bs by now destruct bs.
-    now rewrite <- E, fupd_id.
+    rewrite bstate_eta. now rewrite <- E, fupd_id.
   - fold (apps (app s (replay_call (PDel b k None))) (map replay_call (map (fun k => PDel b k None) t))).
     rewrite IH. unfold StorageOutbox.app; cbn [replay_call StorageOutbox.apply_call].
     destruct (s b) as [bs|] eqn:E; cbn [fst]; [|now rewrite E].
@@ -221,7 +245,7 @@ Qed.
 Lemma replayed_eq_accepted i c ps : route i c = (None, ps) ->
   forall s, apps s (map replay_call ps) = app s c.
 Proof.
-  intros R s. destruct c as [b|b|b k cid ct o|b k vid ifm|b ks|b v]; cbn in R.
+  intros R s. destruct c as [b|b|b k cid ct o|b k vid ifm|b ks|b v| | | | | | | | | ]; cbn in R; try discriminate R.
   - inversion R; subst. reflexivity.
   - inversion R; subst. reflexivity.
   - destruct (o_ifnone o) eqn:H1; [discriminate R|]. destruct (o_ifmatch o) eqn:H2; [discriminate R|].
@@ -232,17 +256,9 @@ Proof.
     inversion R; subst. reflexivity.
   - destruct (match vers_of i b with Some VEnabled | Some VSuspended => true | _ => false end); [discriminate R|].
     inversion R; subst. apply dels_replayed.
-  - discriminate R.
 Qed.
 
 (* ---- independence of a waiting operation from the entries it does not wait for ---- *)
-Definition cont_class (k : cont) : wclass :=
-  match k with
-  | KCall (CPut b k _ _ _) | KCall (CDel b k _ _) => WKey b k
-  | KCall (CDels b _) | KCall (CVers b _) | KCall (CCreate b) | KCall (CDeleteB b) => WBucket b
-  | KRead r => rd_class r
-  end.
-
 Lemma route_class i c w ps : route i c = (Some w, ps) -> w = cont_class (KCall c).
 Proof.
   destruct c; cbn; intros H; try discriminate H;
@@ -251,8 +267,17 @@ Qed.
 
 Lemma replay_bucket p : cbucket (replay_call p) = pl_bucket p.
 Proof. destruct p; reflexivity. Qed.
+Lemma replay_not_copy p : is_copy (replay_call p) = false.
+Proof. destruct p; reflexivity. Qed.
 Lemma replay_keycall p : pl_key p <> [] -> keycall (replay_call p) = Some (pl_bucket p, pl_key p).
 Proof. destruct p; cbn; intros H; try congruence; reflexivity. Qed.
+Lemma replay_plain p : plain (replay_call p).
+Proof.
+  exists (fun st ks => (fst (fst (kfull (replay_call p) st ks [])), snd (kfull (replay_call p) st ks []))).
+  intros st ks ups. destruct p; cbn [replay_call kfull kstep fst snd]; try reflexivity.
+  - destruct (put_k _ _ _ _ _); reflexivity.
+  - destruct (del_k _ _ _ _); reflexivity.
+Qed.
 
 Lemma is_empty_false (l : bytes) : is_empty l = false <-> l <> [].
 Proof. destruct l; cbn; split; congruence. Qed.
@@ -263,61 +288,85 @@ Definition indep_stmt (s : istate) (k : cont) (c' : call) : Prop :=
   | KRead r => read_inner (app s c') r = read_inner s r
   end.
 
-Lemma read_other_bucket s c' r b :
-  (match r with RGet b' _ | RList b' | RHeadBucket b' | RGetVers b' => b' = b | RListBuckets => False end) ->
+(* an entry outside the key class leaves the key's view of its bucket alone *)
+Lemma view_indep s p b k : conflict (WKey b k) p = false -> kview (app s (replay_call p)) b k = kview s b k.
+Proof.
+  intros C. cbn in C. apply andb_false_iff in C as [C|C].
+  - apply bytes_eqb_neq in C. unfold kview. rewrite app_other_bucket; [reflexivity | apply replay_not_copy|].
+    rewrite replay_bucket. congruence.
+  - apply orb_false_iff in C as [C1 C2]. apply is_empty_false in C1. apply bytes_eqb_neq in C2.
+    destruct (bytes_eq_dec (pl_bucket p) b) as [E|N].
+    + pose proof (replay_keycall p C1) as K. rewrite E in K.
+      apply (key_keeps_view s _ b (pl_key p) k K (replay_plain p)). congruence.
+    + unfold kview. rewrite app_other_bucket; [reflexivity | apply replay_not_copy|]. rewrite replay_bucket. congruence.
+Qed.
+
+Lemma kview_read s1 s2 b k : kview s1 b k = kview s2 b k ->
+  read_inner s1 (RGet b k) = read_inner s2 (RGet b k) /\ read_inner s1 (RTags b k) = read_inner s2 (RTags b k) /\
+  copy_src s1 b k = copy_src s2 b k.
+Proof.
+  unfold kview, copy_src. cbn [StorageOutbox.read_inner]. intros H.
+  destruct (s1 b) as [x|], (s2 b) as [y|]; try discriminate H; [|auto].
+  inversion H as [[H1 H2 H3]]. rewrite H2. auto.
+Qed.
+
+Lemma read_other_bucket s c' r b : is_copy c' = false ->
+  (match r with RGet b' _ | RTags b' _ | RList b' | RHeadBucket b' | RGetVers b' => b' = b | RListBuckets => False end) ->
   cbucket c' <> b -> read_inner (app s c') r = read_inner s r.
 Proof.
-  intros H N. destruct r; try contradiction; subst; cbn [StorageOutbox.read_inner];
-    rewrite app_other_bucket by congruence; reflexivity.
+  intros NC H N. destruct r; try contradiction; subst; cbn [StorageOutbox.read_inner];
+    rewrite app_other_bucket by (assumption || congruence); reflexivity.
+Qed.
+
+(* a call on one key vs an entry outside that key's class *)
+Lemma indep_keycall s c b k p : keycall c = Some (b, k) -> conflict (WKey b k) p = false ->
+  indep_stmt s (KCall c) (replay_call p).
+Proof.
+  intros K C. pose proof (keycall_not_copy _ _ _ K) as NC. pose proof (keycall_bucket _ _ _ K) as CB.
+  cbn in C. apply andb_false_iff in C as [C|C].
+  - apply bytes_eqb_neq in C. split; [apply comm_other_bucket | apply res_other_bucket];
+      try apply replay_not_copy; try assumption; rewrite replay_bucket; congruence.
+  - apply orb_false_iff in C as [C1 C2]. apply is_empty_false in C1. apply bytes_eqb_neq in C2.
+    destruct (bytes_eq_dec (pl_bucket p) b) as [E|N].
+    + pose proof (replay_keycall p C1) as K'. rewrite E in K'.
+      destruct (comm_other_key s (replay_call p) c b (pl_key p) k K' (replay_plain p) K C2) as [A HB].
+      split; [exact A | exact HB].
+    + split; [apply comm_other_bucket | apply res_other_bucket];
+        try apply replay_not_copy; try assumption; rewrite replay_bucket; congruence.
 Qed.
 
 Lemma indep s k p : conflict (cont_class k) p = false -> indep_stmt s k (replay_call p).
 Proof.
-  intros C. pose proof (replay_bucket p) as RB.
-  assert (OB : forall c, cbucket c <> pl_bucket p -> indep_stmt s (KCall c) (replay_call p)).
-  { intros c N. split; [apply comm_other_bucket | apply res_other_bucket]; congruence. }
+  intros C. pose proof (replay_bucket p) as RB. pose proof (replay_not_copy p) as RN.
+  assert (OB : forall c, is_copy c = false -> cbucket c <> pl_bucket p -> indep_stmt s (KCall c) (replay_call p)).
+  { intros c NC N. split; [apply comm_other_bucket | apply res_other_bucket]; try assumption; congruence. }
   destruct k as [c|r].
-  - destruct c as [b|b|b k cid ct o|b k vid ifm|b ks|b v]; cbn [cont_class conflict] in C;
-      try (apply OB; cbn [cbucket]; apply bytes_eqb_neq in C; congruence).
-    + (* CPut, class WKey *)
-      apply andb_false_iff in C as [C|C]; [apply OB; cbn; apply bytes_eqb_neq in C; congruence|].
-      apply orb_false_iff in C as [C1 C2]. apply is_empty_false in C1. apply bytes_eqb_neq in C2.
-      destruct (bytes_eq_dec (pl_bucket p) b) as [E|N]; [|apply OB; cbn; congruence].
-      pose proof (replay_keycall p C1) as K. rewrite E in K.
-      destruct (comm_other_key s (replay_call p) (CPut b k cid ct o) b (pl_key p) k K eq_refl C2) as [A HB].
-      split; [exact A | exact HB].
-    + apply andb_false_iff in C as [C|C]; [apply OB; cbn; apply bytes_eqb_neq in C; congruence|].
-      apply orb_false_iff in C as [C1 C2]. apply is_empty_false in C1. apply bytes_eqb_neq in C2.
-      destruct (bytes_eq_dec (pl_bucket p) b) as [E|N]; [|apply OB; cbn; congruence].
-      pose proof (replay_keycall p C1) as K. rewrite E in K.
-      destruct (comm_other_key s (replay_call p) (CDel b k vid ifm) b (pl_key p) k K eq_refl C2) as [A HB].
-      split; [exact A | exact HB].
-  - destruct r as [b k|b| |b|b]; cbn [cont_class rd_class conflict indep_stmt] in *.
-    + apply andb_false_iff in C as [C|C].
-      { apply (read_other_bucket s _ _ b); [reflexivity|]. apply bytes_eqb_neq in C. congruence. }
-      apply orb_false_iff in C as [C1 C2]. apply is_empty_false in C1. apply bytes_eqb_neq in C2.
-      destruct (bytes_eq_dec (pl_bucket p) b) as [E|N].
-      2:{ apply (read_other_bucket s _ _ b); [reflexivity | congruence]. }
-      pose proof (replay_keycall p C1) as K. rewrite E in K. cbn [StorageOutbox.read_inner].
-      destruct (s b) as [bs|] eqn:SB.
-      * destruct (key_keeps_other_key s _ b (pl_key p) k bs K (not_eq_sym C2) SB) as (bs' & A1 & A2 & A3).
-        rewrite A1, A3. reflexivity.
-      * pose proof (key_keeps_bucket s _ b (pl_key p) b K) as V. rewrite SB in V.
-        destruct (app s (replay_call p) b); [discriminate V | reflexivity].
-    + apply (read_other_bucket s _ _ b); [reflexivity|]. apply bytes_eqb_neq in C. congruence.
-    + apply is_empty_false in C. pose proof (replay_keycall p C) as K. cbn [StorageOutbox.read_inner].
+  - destruct c; cbn [cont_class call_class] in C;
+      try (eapply indep_keycall; [reflexivity | exact C]; fail);
+      try (apply OB; [reflexivity|]; cbn [cbucket]; cbn in C; apply bytes_eqb_neq in C; congruence).
+    (* CopyObject *)
+    cbn [conflict] in C. apply orb_false_iff in C as [Cs Cd].
+    destruct (kview_read _ _ _ _ (view_indep s p sb sk Cs)) as (_ & _ & SRC).
+    pose proof (indep_keycall s (CPutR db dk (match copy_src s sb sk with inr r => r | inl _ => mk_rec 0 None {| o_tags := []; o_meta := None; o_class := None; o_ifnone := false; o_ifmatch := None |} end)) db dk p eq_refl Cd) as [A HB].
+    unfold indep_stmt, StorageOutbox.app in *. cbn [StorageOutbox.apply_call] in *. rewrite SRC.
+    destruct (copy_src s sb sk) as [e|r]; cbn [fst snd]; [split; reflexivity|]. split; [exact A | exact HB].
+  - destruct r as [b k|b| |b|b|b k]; cbn [cont_class rd_class indep_stmt] in *.
+    + apply (kview_read _ _ _ _ (view_indep s p b k C)).
+    + cbn in C. apply (read_other_bucket s _ _ b); [assumption | reflexivity|]. apply bytes_eqb_neq in C. congruence.
+    + cbn in C. apply is_empty_false in C. pose proof (replay_keycall p C) as K. cbn [StorageOutbox.read_inner].
       f_equal. apply filter_ext. intros b'. pose proof (key_keeps_bucket s _ _ _ b' K) as V.
       destruct (app s (replay_call p) b'), (s b'); try discriminate V; reflexivity.
-    + apply andb_false_iff in C as [C|C].
-      { apply (read_other_bucket s _ _ b); [reflexivity|]. apply bytes_eqb_neq in C. congruence. }
+    + cbn in C. apply andb_false_iff in C as [C|C].
+      { apply (read_other_bucket s _ _ b); [assumption | reflexivity|]. apply bytes_eqb_neq in C. congruence. }
       apply is_empty_false in C. pose proof (replay_keycall p C) as K. cbn [StorageOutbox.read_inner].
       pose proof (key_keeps_bucket s _ _ _ b K) as V.
       destruct (app s (replay_call p) b), (s b); try discriminate V; reflexivity.
-    + apply andb_false_iff in C as [C|C].
-      { apply (read_other_bucket s _ _ b); [reflexivity|]. apply bytes_eqb_neq in C. congruence. }
+    + cbn in C. apply andb_false_iff in C as [C|C].
+      { apply (read_other_bucket s _ _ b); [assumption | reflexivity|]. apply bytes_eqb_neq in C. congruence. }
       apply is_empty_false in C. pose proof (replay_keycall p C) as K. cbn [StorageOutbox.read_inner].
       pose proof (key_keeps_bucket s _ _ _ b K) as V.
       destruct (app s (replay_call p) b), (s b); try discriminate V; cbn in V; congruence.
+    + apply (kview_read _ _ _ _ (view_indep s p b k C)).
 Qed.
 
 Definition qcalls (q : list entry) : list call := map (fun e => replay_call (e_pl e)) q.
@@ -549,6 +598,26 @@ Proof.
     - destruct (route _ c) as [[w|] ?]; discriminate.
     - discriminate. }
   exact (proj2 (step_inv _ _ o I OK) k C).
+Qed.
+
+(* a completing operation finds nothing of its class pending *)
+Theorem completes_noconf ops o k :
+  seqclient UK UB init_state ops = true ->
+  completes (state_after UK UB ops) o = Some k ->
+  noconf (cont_class k) (queue (state_after UK UB ops)).
+Proof.
+  intros SC C. pose proof (run_inv ops init_state [] Inv_init SC) as I. cbn [List.app] in I.
+  set (s := state_after UK UB ops) in *. fold s in I. fold (state_after UK UB ops) in I. fold s in I.
+  destruct o as [c|r| |]; cbn [completes] in C.
+  - destruct (route (inner s) c) as [[w|] ps] eqn:R; [|discriminate].
+    destruct (inflight s); [discriminate|]. destruct (last_conf w (queue s)) eqn:L; [discriminate|].
+    inversion C; subst. rewrite <- (route_class _ _ _ _ R). now apply last_conf_none.
+  - destruct (inflight s); [discriminate|]. destruct (last_conf (rd_class r) (queue s)) eqn:L; [discriminate|].
+    inversion C; subst. now apply last_conf_none.
+  - discriminate.
+  - destruct (inflight s) as [[[k' w] snap]|] eqn:F; [|discriminate].
+    destruct (wait_done w snap (queue s)) eqn:W; [|discriminate]. inversion C; subst.
+    eapply wait_done_noconf; eauto.
 Qed.
 
 (* ---- the snapshot wait, for ALL interleavings (other clients may enqueue while one waits) ---- *)
